@@ -37,7 +37,7 @@ def obligations(tier):
     obs.append(Ob('O9.4-corpus-pairs', 'sx', 'harness.apidt:h_wellformed', twin=None, slices=slices, timeout=90 if tier == 'quick' else 240,
                   descr='API level, symbolic reference datetime, every culture: on the DateTimeModel Specs inputs that yield two candidates under an open TIMEX XXXX-MM-DD / XXXX-WXX-d (inputs only; expected outputs not consulted), '
                         'for EVERY reference datetime the two values are the latest occurrence before the reference day and the earliest on or after it (same month/day in consecutive years, neighbouring leap years for 29 February, '
-                        'same weekday 7 days apart)',
+                        'both on the stated weekday); a single resolved candidate under such a TIMEX is a violation',
                   bounds=_corpus.REF + ', minus region KF-C09-TOD (own day with a non-zero time of day: "before" checked as "not after"); inputs per culture %s' % _json.dumps(counts),
                   encodes=_corpus.ENC + [B + 'chinese.date_parser:ChineseDateParser.parse_implicit_date', B + 'chinese.date_parser:ChineseDateParser.match_to_date'], stubs=_corpus.STUBS))
     ZD = 'recognizers_date_time.date_time.chinese.date_parser:ChineseDateParser.'
